@@ -62,6 +62,19 @@ fn main() {
         eprintln!("usage: bpp_harness <scenario> [quick|thorough] [seed]");
         std::process::exit(2);
     }
+    if args[1] == "C11-table" {
+        // compressed encodings of every generator of the largest parameter set, sorted: input of the generated Lean table
+        let pr = rrun::params(64, 32, 6);
+        let mut v: Vec<[u8; 32]> = pr.gi_base_iter().chain(pr.hi_base_iter()).chain(pr.g_bases().iter()).chain(std::iter::once(pr.h_base())).map(|p| p.compress().to_bytes()).collect();
+        for x in v.iter_mut() {
+            x.reverse(); // big-endian for numeric sorting
+        }
+        v.sort();
+        for x in &v {
+            println!("{}", util::hex(x));
+        }
+        return;
+    }
     if args[1] == "C19-record" {
         scen_wire::record();
         return;
